@@ -310,8 +310,11 @@ def reader_case(ctx, data, sched, bufsize, crlf_only, label):
             j += 1
     ctx.hit("reader_runs_compared")
     ctx.case(b"R" + data + repr((sched, bufsize)).encode(), len(sched) >= 2 or bufsize < len(data))
-    ctx.sample({"stream_len": len(data), "schedule_head": sched[:12], "bufsize": bufsize, "messages": len(got),
-                "messages_one_segment": len(base), "faults": nfaults, "invariant_evaluations": mon2.evals}, limit=1)
+    if len(sched) >= 4 and got:
+        ctx.sample({"stream_head_hex": data[:32].hex(), "stream_len": len(data), "schedule_head": sched[:16],
+                    "bufsize": bufsize, "messages": len(got), "messages_one_segment": len(base), "faults": nfaults,
+                    "invariant_evaluations_this_run": mon2.evals, "short_reads_with_cause": mon2.short_ok,
+                    "reads_spanning_segments": mon2.spanning}, limit=2)
 
 
 def make_data(rng, small=False, crlf=True):
